@@ -99,7 +99,8 @@ def run(ctx):
     # --- generated scripts: predicate on engine output + names_of vs semantic_analysis
     cases = []
     while len(cases) < (120 if q else 6000):
-        c = exprk.make_case(ctx.rng, ctx.rng.choice([1, 2, 3]), risky_div=False)
+        c = exprk.make_case(ctx.rng, ctx.rng.choice([1, 2, 3]), risky_div=False,
+                            directed=ctx.rng.choice([None, None, None, None, "setctx", "nest21", "chain"]))
         if c:
             cases.append(c)
     # names_of over the statement list: fold names through the statements
@@ -115,7 +116,8 @@ def run(ctx):
         ctx.count(hashlib.sha1(c["script"].encode() + json.dumps(exprk.case_json(c)["inputs"], sort_keys=True, default=str).encode()).hexdigest())
         for p in conformance_problems(rr, sem):
             n_viol += 1
-            ctx.violation("generated:" + re.sub(r"[^A-Za-z_. ]", "", p)[:60], f"{c['script'].strip()} :: {p}", {"case": exprk.case_json(c), "problem": p})
+            shape = "null-constant-operand:" if ("non-nullable" in p and re.search(r"\bnull\b", c["script"])) else ""
+            ctx.violation("generated:" + shape + re.sub(r"[^A-Za-z_. ]", "", p)[:60], f"{c['script'].strip()} :: {p}", {"case": exprk.case_json(c), "problem": p})
         if sem["ok"] and m[0] == "Ok":
             env = {x[0][1]: ([y[1] for y in x[1][0]], [y[1] for y in x[1][1]]) for x in m[1]}
             for name, comps in sem["datasets"].items():
